@@ -31,8 +31,13 @@ func runC07n(seed int64, count int) {
 			pl := netty.NewPipeline()
 			env.pl = pl
 			tr := mock.NewTransport()
-			ch := netty.NewChannel()(int64(cs), context.Background(), pl, tr, goExec{})
+			parent, parentCancel := context.WithCancel(context.Background())
+			defer parentCancel()
+			ch := netty.NewChannel()(int64(cs), parent, pl, tr, goExec{})
 			netty.NvAttach(pl, ch)
+			// 1/6: the context the channel was created under ends (the bootstrap is shutting down) while the channel is still
+			// open: panics are still routed; a write is refused by the head with the context's error, which is an exception too
+			parentDone := rng.Intn(6) == 0
 			emit("#case c07n-%d", cs)
 			emit("C07 new")
 			nh := 1 + rng.Intn(5)
@@ -110,6 +115,9 @@ func runC07n(seed int64, count int) {
 				if e.Error() == "netty: channel closed" {
 					return "err:424242"
 				}
+				if e == context.Canceled {
+					return "err:555555"
+				}
 				return "unknown"
 			}
 			reacted, inReaction := false, false
@@ -124,6 +132,9 @@ func runC07n(seed int64, count int) {
 				} else {
 					ch.Trigger("n")
 				}
+			}
+			if parentDone {
+				parentCancel()
 			}
 			ninv := 1 + rng.Intn(3)
 			for inv := 0; inv < ninv; inv++ {
@@ -142,6 +153,10 @@ func runC07n(seed int64, count int) {
 					default: // the write is taken, the flush fails
 						tr.FailFlush = func(int) error { return hv.(error) }
 					}
+				}
+				if parentDone { // the low-level write refuses before it touches the transport
+					tr.FailWrite, tr.FailFlush = nil, nil
+					headVal, headName = context.Canceled, "err:555555"
 				}
 				entries := []string{"chwrite", "chwrite", "chtrigger", "read", "active", "ctx", "ctx"}
 				entry := entries[rng.Intn(len(entries))]
